@@ -30,7 +30,10 @@ GRIDS = {"unit": [2000, 2001, 2002, 2003, 2004], "const4": [2000, 2004, 2008, 20
          "uneven_alt": [2000, 2003, 2004, 2007, 2008],      # uneven items, lengths all 2
          "three_p2": [1990, 1991, 1994],                    # lengths 2,2,2 ... minimal grid
          "const5": [2000, 2005, 2010, 2015], "uneven": [2000, 2005, 2010, 2020, 2030],
-         "uneven2": [2000, 2001, 2003, 2007, 2008, 2012], "three": [1990, 2000, 2020]}
+         "uneven2": [2000, 2001, 2003, 2007, 2008, 2012], "three": [1990, 2000, 2020],
+         # calendar years with fractions that are ALMOST evenly spaced (off by 1/64 and 1/128 of a year): the interval bounds are still
+         # the midpoints of the items as they are
+         "almost_even": [2000, 2001.015625, 2002, 2003.0078125, 2004]}
 EXACT_GRIDS = ("unit", "const4", "uneven_p2", "uneven_alt", "three_p2")
 
 
